@@ -149,7 +149,8 @@ fn compileprobe() {
         println!("interpret = {} ; {} bytes ; plan {:?}", r.show(), b.len(), names);
         match ParsedProgram::from_bytes(&b) {
           Err(e) => println!("load error {}", e.kind_name()),
-          Ok(p) => { let mut f = mech_interpreter::Interpreter::new(1); match std::panic::catch_unwind(std::panic::AssertUnwindSafe(|| f.run_program(&p))) { Err(e) => println!("run panic {}", mech::panic_msg(e)), Ok(Err(e)) => println!("run error {}", e.kind_name()), Ok(Ok(v)) => println!("run = {}", rval::from_value(&v).show()) } }
+          Ok(p) => { match p.decode_const_entries() { Ok(cs) => for c in &cs { println!("  const {:?} = {}", c.kind(), rval::from_value(c).show()); }, Err(e) => println!("  decode consts error {}", e.kind_name()) }
+            let mut f = mech_interpreter::Interpreter::new(1); match std::panic::catch_unwind(std::panic::AssertUnwindSafe(|| f.run_program(&p))) { Err(e) => println!("run panic {}", mech::panic_msg(e)), Ok(Err(e)) => println!("run error {}", e.kind_name()), Ok(Ok(v)) => println!("run = {}", rval::from_value(&v).show()) } }
         }
       }
     }
